@@ -138,6 +138,7 @@ pub fn drive(name: &str, out: &str, args: &[String]) {
         "caps" => caps_driver(out, seed, arg(args, 1, 200)),
         "struct" => struct_driver(out, seed, arg(args, 1, 100)),
         "recv" => recv_driver(out, seed, arg(args, 1, 50)),
+        "staked" => staked_driver(out, seed, arg(args, 1, 50)),
         _ => {
             eprintln!("unknown driver {}", name);
             std::process::exit(2);
@@ -742,6 +743,29 @@ fn liq_driver(out: &str, seed: u64, n: u64) {
             if ins > 0 {
                 r.act(json!({"op":"fund_vault","mint":d1.mint,"dst":"D1.ins","amount":ins.to_string()}));
             }
+            // a bankruptcy assessment needs every collateral price: with the collateral oracle stale, doctored or
+            // substituted the account must not be declared bankrupt (recorded side branches, undone afterwards)
+            if !c1_fixed {
+                for variant in 0..3 {
+                    r.fork(&mut |r: &mut Recorder| {
+                        match variant {
+                            0 => {
+                                r.act(json!({"op":"tick","dt":100_000,"refresh_oracles":false}));
+                                r.act(json!({"op":"set_oracle","oracle":d1.oracle.clone(),"age":0}));
+                            }
+                            1 => {
+                                r.act(json!({"op":"set_oracle","oracle":c1.oracle.clone(),"discr_ok":false}));
+                            }
+                            _ => {}
+                        }
+                        let mut bk = json!({"op":"bankruptcy","acct":"A1","bank":"D1"});
+                        if variant == 2 {
+                            bk["oracle_sub"] = json!({"C1": d1.oracle.clone()});
+                        }
+                        r.act(bk);
+                    });
+                }
+            }
             let signer = *pick(&mut rng, &["admin", "riskadmin", "U7", "U7"]);
             let mut bk = json!({"op":"bankruptcy","acct":"A1","bank":"D1"});
             if signer != "admin" {
@@ -758,6 +782,13 @@ fn liq_driver(out: &str, seed: u64, n: u64) {
             }
             // afterwards: everything on the account / bank
             r.act(json!({"op":"bankruptcy","acct":"A1","bank":"D1"}));
+            // a bankrupt (disabled) account that still holds collateral: moving it to a new account must move it, once
+            r.fork(&mut |r: &mut Recorder| {
+                r.act(json!({"op":"transfer_account","acct":"A1","new_acct":"A1n","new_authority":"U7"}));
+                r.act(json!({"op":"transfer_account","acct":"A1","new_acct":"A1m","new_authority":"U7"}));
+                r.act(json!({"op":"withdraw","acct":"A1n","bank":"C1","amount":0,"all":true,"signer":"U7"}));
+                r.act(json!({"op":"withdraw","acct":"A1","bank":"C1","amount":0,"all":true}));
+            });
             r.act(json!({"op":"deposit","acct":"A1","bank":"C1","amount":5}));
             r.act(json!({"op":"withdraw","acct":"LP","bank":"D1","amount":1}));
             r.act(json!({"op":"deposit","acct":"LP","bank":"D1","amount":1000}));
@@ -1387,5 +1418,227 @@ fn recv_driver(out: &str, seed: u64, n: u64) {
         r.act(json!({"op":"pulse_health","acct":"A1"}));
     }
     eprintln!("recv driver: {} scenarios, {} brackets accepted, {} rejected, {} seize boundaries, {} events", n, nacc, nrej, nbound, r.events);
+    r.finish();
+}
+
+// ------------------------------------------------------------------------------------------------
+// staked driver (C04 C05 C08 C09 C13 C16): real spl-single-pool collateral banks. Two validator pools
+// with different exchange rates, group-wide staked settings, permissionless bank creation (with and
+// without substituted pool accounts), borrow boundaries against LST collateral, substitution of each
+// of the three price accounts, stake / supply / SOL price moves, liquidation of LST collateral,
+// settings edits and their permissionless propagation, tag mixing attempts.
+// ------------------------------------------------------------------------------------------------
+fn staked_setup() -> Vec<Value> {
+    let mut v = base_setup();
+    v.extend(vec![
+        json!({"op":"init_account","acct":"A3","group":"G1","authority":"U3"}),
+        json!({"op":"init_group","group":"G2","admin":"admin2"}),
+        json!({"op":"add_mint","mint":"MSOL","decimals":9,"kind":"spl"}),
+        json!({"op":"add_mint","mint":"MUSD","decimals":6,"kind":"spl"}),
+        json!({"op":"set_oracle","oracle":"OSOL","kind":"pyth","price":10_000_000_000i64,"conf":5_000_000,"expo":-8}),
+        json!({"op":"set_oracle","oracle":"OALT","kind":"pyth","price":20_000_000_000i64,"conf":0,"expo":-8}),
+        json!({"op":"add_bank","group":"G1","bank":"BSOL","mint":"MSOL","cfg":{"asset_tag":1,"lw_init":"1.25","lw_maint":"1.125"}}),
+        json!({"op":"configure_oracle","bank":"BSOL","oracle":"OSOL","setup":3}),
+        json!({"op":"add_bank","group":"G1","bank":"BUSD","mint":"MUSD","cfg":{}}),
+        json!({"op":"set_fixed_price","bank":"BUSD","price":1}),
+        json!({"op":"fund","user":"U9","mint":"MSOL","amount":"5000000000000000"}),
+        json!({"op":"fund","user":"U9","mint":"MUSD","amount":"5000000000000000"}),
+        json!({"op":"deposit","acct":"LP","bank":"BSOL","amount":"1000000000000000"}),
+        json!({"op":"deposit","acct":"LP","bank":"BUSD","amount":"1000000000000"}),
+        json!({"op":"fund","user":"U2","mint":"MSOL","amount":"5000000000000000"}),
+        json!({"op":"fund","user":"U2","mint":"MUSD","amount":"5000000000000"}),
+        json!({"op":"fund","user":"U1","mint":"MUSD","amount":"5000000000000"}),
+        json!({"op":"fund","user":"U3","mint":"MUSD","amount":"5000000000000"}),
+    ]);
+    v
+}
+
+fn staked_driver(out: &str, seed: u64, n: u64) {
+    let mut rng = StdRng::seed_from_u64(seed);
+    let mut r = Recorder::new(&format!("{}/staked.trace", out), staked_setup());
+    let (mut nb, mut nliq) = (0u64, 0u64);
+    for _k in 0..n {
+        // pools: delegated stake (incl. the permanent 1 SOL) and LST supply chosen so that the rates differ
+        let sol = 1_000_000_000u64;
+        let stake1: u64 = sol + *pick(&mut rng, &[1_000 * sol, 37 * sol + 123_456_789, 1_000_000 * sol, 3 * sol]);
+        let stake2: u64 = sol + *pick(&mut rng, &[50 * sol, 999 * sol + 1, 20_000 * sol]);
+        let sup1: u64 = ((stake1 - sol) as f64 / *pick(&mut rng, &[1.0f64, 1.111, 1.3, 0.97])) as u64;
+        let sup2: u64 = ((stake2 - sol) as f64 / *pick(&mut rng, &[1.0f64, 2.0, 1.05])) as u64;
+        let (aw_i, aw_m) = *pick(&mut rng, &[("0.8", "0.9"), ("0.5", "0.65"), ("0.9", "0.95"), ("1", "1")]);
+        let mut extra = vec![
+            json!({"op":"add_stake_pool","pool":"SP1","mint":"LST1","stake":stake1.to_string()}),
+            json!({"op":"add_stake_pool","pool":"SP2","mint":"LST2","stake":stake2.to_string()}),
+            // the bulk of each supply sits with outside holders; the users get a slice
+            json!({"op":"fund","user":"outside","mint":"LST1","amount":(sup1 - sup1 / 4).to_string()}),
+            json!({"op":"fund","user":"U1","mint":"LST1","amount":(sup1 / 8).to_string()}),
+            json!({"op":"fund","user":"U3","mint":"LST1","amount":(sup1 / 8).to_string()}),
+            json!({"op":"fund","user":"outside","mint":"LST2","amount":(sup2 - sup2 / 4).to_string()}),
+            json!({"op":"fund","user":"U1","mint":"LST2","amount":(sup2 / 8).to_string()}),
+            json!({"op":"fund","user":"U2","mint":"LST2","amount":(sup2 / 8).to_string()}),
+        ];
+        let conf: i64 = *pick(&mut rng, &[0i64, 5_000_000, 150_000_000, 600_000_000]);
+        extra.push(json!({"op":"set_oracle","oracle":"OSOL","price":10_000_000_000i64,"conf":conf}));
+        r.begin(&extra);
+        // ---- settings and bank creation
+        r.act(json!({"op":"add_bank_staked","group":"G1","bank":"SBX","pool":"SP1","seed":7}));   // no settings yet
+        r.act(json!({"op":"init_staked_settings","group":"G1","oracle":"OSOL","aw_init":aw_i,"aw_maint":aw_m,"max_age":*pick(&mut rng, &[60u64, 30, 300]),"signer":"stranger"}));
+        r.act(json!({"op":"init_staked_settings","group":"G1","oracle":"OSOL","aw_init":"0.9","aw_maint":"0.8"}));   // maint < init
+        r.act(json!({"op":"init_staked_settings","group":"G1","oracle":"OSOL","aw_init":aw_i,"aw_maint":aw_m,"max_age":*pick(&mut rng, &[60u64, 30, 300])}));
+        r.act(json!({"op":"init_staked_settings","group":"G1","oracle":"OSOL","aw_init":aw_i,"aw_maint":aw_m}));   // twice
+        // substituted pool accounts: every single one, and pairs
+        for sub in [
+            json!({"mint":"LST2"}), json!({"sol_pool":"SP2.stake"}), json!({"stake_pool":"SP2"}),
+            json!({"stake_pool":"SP2","sol_pool":"SP2.stake"}), json!({"mint":"LST2","sol_pool":"SP2.stake"}),
+            json!({"mint":"MSOL"}), json!({"stake_pool":"stranger"}),
+            json!({"rem":["OALT","LST1","SP1.stake"]}), json!({"rem":["OSOL","LST2","SP1.stake"]}), json!({"rem":["OSOL","LST1","SP2.stake"]}),
+            json!({"rem":["OSOL","LST1"]}), json!({"group":"G2"}),
+        ] {
+            let mut a = json!({"op":"add_bank_staked","group":"G1","bank":"SBX","pool":"SP1","seed":9});
+            for (k, v) in sub.as_object().unwrap() {
+                a[k] = v.clone();
+            }
+            r.act(a);
+        }
+        r.act(json!({"op":"add_bank_staked","group":"G1","bank":"SB1","pool":"SP1","seed":0}));
+        r.act(json!({"op":"add_bank_staked","group":"G1","bank":"SB1","pool":"SP1","seed":0}));   // same seed again
+        r.act(json!({"op":"add_bank_staked","group":"G1","bank":"SB2","pool":"SP2","seed":0,"signer":"stranger"}));   // permissionless
+        // admin-style edits that a staked bank refuses or accepts
+        r.act(json!({"op":"set_fixed_price","bank":"SB1","price":5}));
+        r.fork(&mut |r: &mut Recorder| {
+            r.act(json!({"op":"configure_bank","bank":"SB1","cfg":{"asset_tag":0}}));
+        });
+        r.fork(&mut |r: &mut Recorder| {
+            r.act(json!({"op":"configure_oracle","bank":"SB1","oracle":"OALT","setup":3}));
+        });
+        r.fork(&mut |r: &mut Recorder| {
+            r.act(json!({"op":"configure_oracle","bank":"SB1","oracle":"OALT","setup":5}));
+        });
+        // ---- positions
+        let dep1: u64 = (sup1 / 16).max(1000);
+        r.act(json!({"op":"deposit","acct":"A1","bank":"SB1","amount":dep1}));
+        r.act(json!({"op":"deposit","acct":"A1","bank":"BUSD","amount":1_000_000}));      // default-tag deposit next to staked collateral
+        r.act(json!({"op":"deposit","acct":"A3","bank":"BUSD","amount":50_000_000}));
+        r.act(json!({"op":"deposit","acct":"A3","bank":"SB1","amount":1000}));             // staked deposit next to default collateral
+        r.act(json!({"op":"borrow","acct":"A1","bank":"BUSD","amount":1000}));             // only SOL may be borrowed against staked collateral
+        r.act(json!({"op":"borrow","acct":"A1","bank":"SB2","amount":1000}));             // staked banks lend nothing
+        r.act(json!({"op":"deposit","acct":"A2","bank":"BSOL","amount":"200000000000000"}));
+        r.act(json!({"op":"deposit","acct":"A2","bank":"SB2","amount":(sup2 / 16).max(1000)}));
+        // ---- borrow boundary against LST collateral
+        let mkb = |x: u64| json!({"op":"borrow","acct":"A1","bank":"BSOL","amount":x});
+        let mut debt = 0u64;
+        if let Some((lo, hi)) = search_boundary(&mut r, &mkb, 900_000_000_000_000, "RiskEngineInitRejected") {
+            r.act(mkb(hi));
+            if lo > 0 {
+                // the three price accounts, substituted one at a time and together, at an amount that is otherwise fine
+                let small = (lo / 2).max(1);
+                for sl in [json!({"1":"LST2"}), json!({"2":"SP2.stake"}), json!({"1":"LST2","2":"SP2.stake"}), json!({"0":"OALT"}), json!({"1":"MSOL"}), json!({"2":"SP1"})] {
+                    r.fork(&mut |r: &mut Recorder| {
+                        let mut a = mkb(small);
+                        a["oracle_sub_slots"] = json!({"SB1": sl.clone()});
+                        r.act(a);
+                    });
+                }
+                r.fork(&mut |r: &mut Recorder| {
+                    // more than the limit, presented with the richer pool's accounts
+                    let mut a = mkb(hi.saturating_mul(3) / 2);
+                    a["oracle_sub_slots"] = json!({"SB1": {"1":"LST2","2":"SP2.stake"}});
+                    r.act(a);
+                });
+                if r.act(mkb(lo))["res"] == "ok" {
+                    debt = lo;
+                    nb += 1;
+                }
+            }
+        }
+        r.act(json!({"op":"pulse_health","acct":"A1"}));
+        // ---- pool moves: rewards, slashing, dilution, degenerate pools
+        match *pick(&mut rng, &[0usize, 1, 1, 1, 2, 2, 3, 4, 5]) {
+            0 => {
+                r.act(json!({"op":"set_stake","pool":"SP1","stake":(stake1 + (stake1 - sol) / 20).to_string()}));
+            }
+            1 => {
+                r.act(json!({"op":"set_stake","pool":"SP1","stake":(sol + (stake1 - sol) / 2).to_string()}));
+            }
+            2 => {
+                r.act(json!({"op":"fund","user":"outside","mint":"LST1","amount":(sup1 / 3).to_string()}));
+            }
+            3 => {
+                r.act(json!({"op":"set_stake","pool":"SP1","stake":(sol - 1).to_string()}));
+            }
+            4 => {
+                r.act(json!({"op":"set_stake","pool":"SP1","stake":stake1.to_string(),"state":"init"}));
+            }
+            _ => {
+                r.act(json!({"op":"set_oracle","oracle":"OSOL","price":*pick(&mut rng, &[5_000_000_000i64, 9_000_000_000, 30_000_000_000]),"conf":conf}));
+            }
+        }
+        r.act(json!({"op":"pulse_health","acct":"A1"}));
+        r.act(json!({"op":"borrow","acct":"A1","bank":"BSOL","amount":1}));
+        r.act(json!({"op":"withdraw","acct":"A1","bank":"SB1","amount":1}));
+        // ---- liquidation of LST collateral (liquidator A2 holds SOL and LST2: both allowed next to LST1)
+        if debt > 0 {
+            let mkl = |x: u64| json!({"op":"liquidate","liquidator":"A2","liquidatee":"A1","asset_bank":"SB1","liab_bank":"BSOL","amount":x});
+            let e1 = r.probe(&mkl(1));
+            if e1["res"] == "ok" {
+                let (mut lo, mut hi) = (1u64, dep1.saturating_add(1));
+                while hi - lo > 1 {
+                    let mid = lo + (hi - lo) / 2;
+                    if r.probe(&mkl(mid))["res"] == "ok" {
+                        lo = mid;
+                    } else {
+                        hi = mid;
+                    }
+                }
+                r.act(mkl(hi));
+                r.fork(&mut |r: &mut Recorder| {
+                    let mut a = mkl((lo / 2).max(1));
+                    a["oracle_sub_slots"] = json!({"SB1": {"2":"SP2.stake"}});
+                    r.act(a);
+                });
+                if r.act(mkl(*pick(&mut rng, &[lo, lo / 2 + 1, 1])))["res"] == "ok" {
+                    nliq += 1;
+                }
+            } else {
+                r.act(mkl(1));
+            }
+            // a liquidator with default-tag collateral may not take LST
+            r.act(json!({"op":"liquidate","liquidator":"A3","liquidatee":"A1","asset_bank":"SB1","liab_bank":"BSOL","amount":1}));
+        }
+        // ---- settings edits and their permissionless propagation
+        let edits = [
+            json!({"aw_init":"0.7","aw_maint":"0.75"}), json!({"aw_init":"0.99","aw_maint":"0.5"}), json!({"max_age":5}), json!({"max_age":9}), json!({"max_age":10}),
+            json!({"risk_tier":1}), json!({"risk_tier":1,"aw_init":"0","aw_maint":"0"}), json!({"oracle":"OALT"}), json!({"deposit_limit":1}), json!({"init_limit":"1000"}),
+            json!({"aw_init":"1","aw_maint":"2"}), json!({"aw_maint":"2.01"}),
+        ];
+        for _ in 0..rng.gen_range(1..4) {
+            let ed = pick(&mut rng, &edits).clone();
+            let mut a = json!({"op":"edit_staked_settings","group":"G1"});
+            for (k, v) in ed.as_object().unwrap() {
+                a[k] = v.clone();
+            }
+            if rng.gen_bool(0.2) {
+                a["signer"] = json!("riskadmin");
+            }
+            r.act(a);
+            let bank = *pick(&mut rng, &["SB1", "SB2", "BSOL"]);
+            let mut p = json!({"op":"propagate_staked","bank":bank});
+            match rng.gen_range(0..5) {
+                0 => {
+                    p["oracle"] = json!("OALT");
+                }
+                1 => {
+                    p["oracle"] = json!("OSOL");
+                }
+                2 => {
+                    p["group"] = json!("G2");
+                }
+                _ => {}
+            }
+            r.act(p);
+            r.act(json!({"op":"pulse_health","acct":"A1"}));
+            r.act(json!({"op":"borrow","acct":"A1","bank":"BSOL","amount":1}));
+        }
+    }
+    eprintln!("staked driver: {} scenarios, {} borrow boundaries, {} liquidations ok, {} events", n, nb, nliq, r.events);
     r.finish();
 }
